@@ -67,7 +67,7 @@ def check_kind_exhaustiveness(ctx):
         for st in stmts:
             if isinstance(st, ast.If):
                 t = st.test
-                if isinstance(t, ast.Name) and t.id == "variadic":
+                if (isinstance(t, ast.Name) and t.id == "variadic") or (isinstance(t, ast.Attribute) and t.attr == "variadic" and isinstance(t.value, ast.Name)):
                     raises = any(isinstance(x, ast.Raise) for x in st.body)
                     walk(st.body, True if not raises else ctxvar)
                     walk(st.orelse, False)
